@@ -265,6 +265,75 @@ def _is_raw_store(st: ast.AST) -> bool:
         and isinstance(st.targets[0].slice, ast.Constant) and st.targets[0].slice.value == 'raw'
 
 
+def _line_table(ctx: RuleCtx, mod: Module, scope: ast.AST, tname: str, rname: str, qn: str, term: T.Set[str]) -> None:
+    """The line table `tname` is filled in `scope` from a split of the text `rname`: accumulation and terminators."""
+    fn = scope
+    def writes_table(w: ast.AST) -> bool:
+        return (isinstance(w, ast.AugAssign) and norm(w.target) == tname) or (isinstance(w, ast.Call) and norm(w.func) == f'{tname}.append')
+    with_writer = [n for n in ast.walk(scope) if isinstance(n, ast.For) and any(writes_table(w) for w in ast.walk(n))]
+    fills = [n for n in with_writer if not any(x is not n and x in with_writer for x in ast.walk(n))]    # innermost
+    if len(fills) != 1:
+        raise Undecided(f'{qn}: {len(fills)} loops fill the line table')
+    fill = fills[0]
+    lv = norm(fill.target)
+    src: ast.AST = fill.iter
+    if isinstance(src, ast.Name):
+        d = [n.value for n in ast.walk(scope) if isinstance(n, ast.Assign) and len(n.targets) == 1 and norm(n.targets[0]) == src.id]
+        if len(d) != 1:
+            raise Undecided(f'{qn}: {src.id} has {len(d)} definitions')
+        src = d[0]
+    if not (isinstance(src, ast.Call) and isinstance(src.func, ast.Attribute) and norm(src.func.value) == rname):
+        raise Undecided(f'{qn}: the lines come from {short(src)}, not from a split of the text that is spliced ({rname})')
+    how = src.func.attr
+    if how == 'splitlines':
+        keep = (src.args[0] if src.args else kwarg(src, 'keepends'))
+        if keep is not None and not isinstance(keep, ast.Constant):
+            raise Undecided('splitlines(keepends) not constant')
+        seps, per_line = set(UNIVERSAL), (0 if keep is not None and keep.value else None)
+    elif how == 'split' and len(src.args) == 1 and isinstance(src.args[0], ast.Constant) and isinstance(src.args[0].value, str):
+        seps, per_line = {src.args[0].value}, len(src.args[0].value)
+    else:
+        raise Undecided(f'{qn}: lines are produced by {short(src)}')
+    # accumulation: table gets the offset *before* the line, the offset grows by len(line) + terminator length
+    body_paths = enumerate_paths(fill.body)
+    if len(body_paths) != 1:
+        raise Undecided(f'{qn}: the line table loop branches')
+    acc = None
+    appended: T.List[ast.AST] = []
+    env2: T.Dict[str, ast.AST] = {}
+    for st in body_paths[0].stmts():
+        if isinstance(st, ast.AugAssign) and norm(st.target) == tname and isinstance(st.value, ast.List) and len(st.value.elts) == 1:
+            appended.append(_Subst(env2).visit(copy.deepcopy(st.value.elts[0])))
+        elif isinstance(st, ast.Expr) and isinstance(st.value, ast.Call) and norm(st.value.func) == f'{tname}.append' and len(st.value.args) == 1:
+            appended.append(_Subst(env2).visit(copy.deepcopy(st.value.args[0])))
+        elif isinstance(st, ast.AugAssign) and isinstance(st.target, ast.Name) and isinstance(st.op, ast.Add):
+            acc = st.target.id
+            cur = env2.get(acc, ast.Name(id=acc, ctx=ast.Load()))
+            env2[acc] = ast.BinOp(left=cur, op=ast.Add(), right=_Subst(env2).visit(copy.deepcopy(st.value)))
+        elif isinstance(st, ast.Assign) and len(st.targets) == 1 and isinstance(st.targets[0], ast.Name) \
+                and st.targets[0].id in {n.id for n in ast.walk(st.value) if isinstance(n, ast.Name)}:
+            acc = st.targets[0].id
+            env2[acc] = _Subst(env2).visit(copy.deepcopy(st.value))
+        else:
+            raise Undecided(f'{qn}: statement {short(st)} in the line table loop')
+    if acc is None or len(appended) != 1:
+        raise Undecided(f'{qn}: line table loop is not "record offset; advance offset"')
+    in_loop = set(ast.walk(fill))
+    inits = [n.value for n in ast.walk(scope) if isinstance(n, ast.Assign) and len(n.targets) == 1 and norm(n.targets[0]) == acc and n not in in_loop]
+    coef, const = linear(env2[acc])
+    ok_acc = norm(appended[0]) == acc and len(inits) == 1 and isinstance(inits[0], ast.Constant) and inits[0].value == 0 \
+        and coef == {acc: 1, f'len({lv})': 1} and per_line is not None and const == per_line
+    ctx.require(ok_acc, f'line table records the offset of each line start (advance = len(line) + {per_line})', mod, qn, fill,
+                f'line table built from {short(src)}: records {norm(appended[0])}, advances by {norm(env2[acc])} from {short(inits[0]) if inits else "?"}; '
+                f'with this split the offset of the next line is offset + len(line) + {per_line if per_line is not None else "<length of the terminator, which is lost>"}', fill)
+    diff = sorted(seps ^ term, key=lambda c: (c != '\x0c', c))     # form feed first: the terminator one meets in real files
+    ctx.require(not diff, f'line table and lexer agree on the line terminators {sorted(term)!r}', mod, qn, src,
+                f'the line table is built with {short(src)} (line boundaries {sorted(seps)!r}) while Lexer.lex advances lineno only on {sorted(term)!r}: '
+                f'a file containing {diff[0]!r} (e.g. in a comment) before the edited statement shifts every later line index, the edit is spliced into the wrong line'
+                if diff else '', src)
+
+
+
 def r3(ctx: RuleCtx) -> None:
     mod = ctx.repo.module(REWRITER)
     fn = mod.func('Rewriter.apply_changes')
@@ -374,7 +443,7 @@ def r3(ctx: RuleCtx) -> None:
     env = sym_exec(p, stop=store)
     rhs = _strip_cast(_Subst(env).visit(copy.deepcopy(store.value)))  # type: ignore[attr-defined]
     parts = _flatten_add(rhs)
-    target_base = norm(store.targets[0].value)  # type: ignore[attr-defined]
+    target_base = norm(_Subst(env).visit(copy.deepcopy(store.targets[0].value)))  # type: ignore[attr-defined]
     shape_ok = len(parts) == 3 and all(isinstance(parts[i], ast.Subscript) and isinstance(parts[i].slice, ast.Slice) for i in (0, 2))  # type: ignore[attr-defined]
     if not shape_ok:
         raise Undecided(f'{sp_q}: new text is not <text>[:a] + <replacement> + <text>[b:]: {short(rhs)}')
@@ -415,69 +484,23 @@ def r3(ctx: RuleCtx) -> None:
     if not (isinstance(rec.get('offsets'), ast.Name) and isinstance(rec.get('raw'), ast.Name)):
         raise Undecided('apply_changes: "offsets"/"raw" are not plain locals')
     tname, rname = rec['offsets'].id, rec['raw'].id
-    def writes_table(w: ast.AST) -> bool:
-        return (isinstance(w, ast.AugAssign) and norm(w.target) == tname) or (isinstance(w, ast.Call) and norm(w.func) == f'{tname}.append')
-    with_writer = [n for n in ast.walk(fn) if isinstance(n, ast.For) and any(writes_table(w) for w in ast.walk(n))]
-    fills = [n for n in with_writer if not any(x is not n and x in with_writer for x in ast.walk(n))]    # innermost
-    if len(fills) != 1:
-        raise Undecided(f'apply_changes: {len(fills)} loops fill the line table')
-    fill = fills[0]
-    lv = norm(fill.target)
-    src: ast.AST = fill.iter
-    if isinstance(src, ast.Name):
-        d = [n.value for n in ast.walk(fn) if isinstance(n, ast.Assign) and len(n.targets) == 1 and norm(n.targets[0]) == src.id]
-        if len(d) != 1:
-            raise Undecided(f'apply_changes: {src.id} has {len(d)} definitions')
-        src = d[0]
-    if not (isinstance(src, ast.Call) and isinstance(src.func, ast.Attribute) and norm(src.func.value) == rname):
-        raise Undecided(f'apply_changes: the lines come from {short(src)}, not from a split of the text that is spliced ({rname})')
-    how = src.func.attr
-    if how == 'splitlines':
-        keep = (src.args[0] if src.args else kwarg(src, 'keepends'))
-        if keep is not None and not isinstance(keep, ast.Constant):
-            raise Undecided('splitlines(keepends) not constant')
-        seps, per_line = set(UNIVERSAL), (0 if keep is not None and keep.value else None)
-    elif how == 'split' and len(src.args) == 1 and isinstance(src.args[0], ast.Constant) and isinstance(src.args[0].value, str):
-        seps, per_line = {src.args[0].value}, len(src.args[0].value)
-    else:
-        raise Undecided(f'apply_changes: lines are produced by {short(src)}')
-    # accumulation: table gets the offset *before* the line, the offset grows by len(line) + terminator length
-    body_paths = enumerate_paths(fill.body)
-    if len(body_paths) != 1:
-        raise Undecided('apply_changes: the line table loop branches')
-    acc = None
-    appended: T.List[ast.AST] = []
-    env2: T.Dict[str, ast.AST] = {}
-    for st in body_paths[0].stmts():
-        if isinstance(st, ast.AugAssign) and norm(st.target) == tname and isinstance(st.value, ast.List) and len(st.value.elts) == 1:
-            appended.append(_Subst(env2).visit(copy.deepcopy(st.value.elts[0])))
-        elif isinstance(st, ast.Expr) and isinstance(st.value, ast.Call) and norm(st.value.func) == f'{tname}.append' and len(st.value.args) == 1:
-            appended.append(_Subst(env2).visit(copy.deepcopy(st.value.args[0])))
-        elif isinstance(st, ast.AugAssign) and isinstance(st.target, ast.Name) and isinstance(st.op, ast.Add):
-            acc = st.target.id
-            cur = env2.get(acc, ast.Name(id=acc, ctx=ast.Load()))
-            env2[acc] = ast.BinOp(left=cur, op=ast.Add(), right=_Subst(env2).visit(copy.deepcopy(st.value)))
-        elif isinstance(st, ast.Assign) and len(st.targets) == 1 and isinstance(st.targets[0], ast.Name) \
-                and st.targets[0].id in {n.id for n in ast.walk(st.value) if isinstance(n, ast.Name)}:
-            acc = st.targets[0].id
-            env2[acc] = _Subst(env2).visit(copy.deepcopy(st.value))
+    tdefs = [n.value for n in ast.walk(fn) if isinstance(n, ast.Assign) and len(n.targets) == 1 and norm(n.targets[0]) == tname]
+    helper = None
+    if len(tdefs) == 1 and isinstance(tdefs[0], ast.Call) and len(tdefs[0].args) == 1 and not tdefs[0].keywords and norm(tdefs[0].args[0]) == rname:
+        # the table is computed by a helper of the class / module from the same text: analyse the helper (one level)
+        cn = attr_chain(tdefs[0].func) or ''
+        hq = 'Rewriter.' + cn.split('.', 1)[1] if cn.split('.')[0] in ('self', 'cls', 'Rewriter') and '.' in cn else cn
+        if hq and mod.has_func(hq):
+            helper = mod.func(hq)
+            hparams = [a.arg for a in helper.args.args if a.arg not in ('self', 'cls')]
+            rets = [n for n in walk_no_nested(helper) if isinstance(n, ast.Return)]
+            if len(hparams) != 1 or len(rets) != 1 or not isinstance(rets[0].value, ast.Name):
+                raise Undecided(f'{hq}: not a one-parameter helper returning the table it builds')
+            _line_table(ctx, mod, helper, rets[0].value.id, hparams[0], hq, term)
         else:
-            raise Undecided(f'apply_changes: statement {short(st)} in the line table loop')
-    if acc is None or len(appended) != 1:
-        raise Undecided('apply_changes: line table loop is not "record offset; advance offset"')
-    in_loop = set(ast.walk(fill))
-    inits = [n.value for n in ast.walk(fn) if isinstance(n, ast.Assign) and len(n.targets) == 1 and norm(n.targets[0]) == acc and n not in in_loop]
-    coef, const = linear(env2[acc])
-    ok_acc = norm(appended[0]) == acc and len(inits) == 1 and isinstance(inits[0], ast.Constant) and inits[0].value == 0 \
-        and coef == {acc: 1, f'len({lv})': 1} and per_line is not None and const == per_line
-    ctx.require(ok_acc, f'line table records the offset of each line start (advance = len(line) + {per_line})', mod, 'Rewriter.apply_changes', fill,
-                f'line table built from {short(src)}: records {norm(appended[0])}, advances by {norm(env2[acc])} from {short(inits[0]) if inits else "?"}; '
-                f'with this split the offset of the next line is offset + len(line) + {per_line if per_line is not None else "<length of the terminator, which is lost>"}', fill)
-    diff = sorted(seps ^ term, key=lambda c: (c != '\x0c', c))     # form feed first: the terminator one meets in real files
-    ctx.require(not diff, f'line table and lexer agree on the line terminators {sorted(term)!r}', mod, 'Rewriter.apply_changes', src,
-                f'the line table is built with {short(src)} (line boundaries {sorted(seps)!r}) while Lexer.lex advances lineno only on {sorted(term)!r}: '
-                f'a file containing {diff[0]!r} (e.g. in a comment) before the edited statement shifts every later line index, the edit is spliced into the wrong line'
-                if diff else '', src)
+            raise Undecided(f'apply_changes: the line table comes from {short(tdefs[0])}, which is not a helper of this module')
+    else:
+        _line_table(ctx, mod, fn, tname, rname, 'Rewriter.apply_changes', term)
 
     # ---- end positions of the spliced classes are exclusive ends of the closing symbol
     pm = ctx.repo.module(MPARSER)
@@ -489,6 +512,11 @@ def r3(ctx: RuleCtx) -> None:
         el, ec = kwarg(calls[0], 'end_lineno'), kwarg(calls[0], 'end_colno')
         if el is None or ec is None:
             raise Undecided(f'{cls}.__init__ does not pass end_lineno/end_colno')
+        ipaths = enumerate_paths(init.body)
+        if len(ipaths) != 1:
+            raise Undecided(f'{cls}.__init__ branches')
+        ienv = sym_exec(ipaths[0], stop=next((st for st in ipaths[0].stmts() if any(x is calls[0] for x in ast.walk(st))), None))
+        el, ec = _Subst(ienv).visit(copy.deepcopy(el)), _Subst(ienv).visit(copy.deepcopy(ec))     # locals bound first are read through
         params = [a.arg for a in init.args.args]
         closing = params[-1]
         c2, k2 = linear(ec)
@@ -921,6 +949,13 @@ def r6(ctx: RuleCtx) -> None:
     for n in ast.walk(pk):
         if isinstance(n, ast.Assign) and len(n.targets) == 1 and isinstance(n.targets[0], ast.Name):
             pdefs.setdefault(n.targets[0].id, []).append(n.value)
+        elif isinstance(n, ast.AnnAssign) and isinstance(n.target, ast.Name) and n.value is not None:
+            pdefs.setdefault(n.target.id, []).append(n.value)
+        elif isinstance(n, ast.Name) and isinstance(n.ctx, ast.Store) and not any(n is getattr(p_, 'target', None) or n in getattr(p_, 'targets', []) for p_ in [pm.get(n)]):
+            pdefs.setdefault(n.id, []).extend([ast.Constant(value=None), ast.Constant(value=None)])   # loop / with / unpacking target: not a single definition
+    # single-definition locals that only re-name a field of the command (`operation = cmd['operation']`) are read through
+    cparam = [a.arg for a in pk.args.args][1]
+    renames = {k: v[0] for k, v in pdefs.items() if len(v) == 1 and isinstance(v[0], ast.Subscript) and norm(v[0].value) == cparam}
 
     def is_modifier(e: ast.AST) -> bool:
         # <name> = <table>[key](...) with <table> = rewriter_func_kwargs[...]
@@ -930,15 +965,15 @@ def r6(ctx: RuleCtx) -> None:
         if not (isinstance(d, ast.Call) and isinstance(d.func, ast.Subscript) and isinstance(d.func.value, ast.Name)):
             return False
         t = pdefs.get(d.func.value.id, [])
-        return len(t) == 1 and isinstance(t[0], ast.Subscript) and norm(t[0].value) == 'rewriter_func_kwargs'
+        return len(t) == 1 and isinstance(t[0], ast.Subscript) and norm(t[0].value) == 'rewriter_func_kwargs'   # index: cmd['function'] or a local for it
     for c in ast.walk(pk):
         if isinstance(c, ast.Call) and isinstance(c.func, ast.Attribute) and len(c.args) == 1 and is_modifier(c.func.value):
             cur: ast.AST = c
             while cur in pm and not isinstance(cur, ast.FunctionDef):
                 par = pm[cur]
                 if isinstance(par, ast.If) and cur in par.body:
-                    a, pol = canon(par.test, True)
-                    if pol and a.kind == 'cmp' and a.args[0] == 'eq' and "cmd['operation']" in a.args[1:] and repr(op_c) in a.args[1:]:
+                    a, pol = canon(_Subst(renames).visit(copy.deepcopy(par.test)), True)
+                    if pol and a.kind == 'cmp' and a.args[0] == 'eq' and f"{cparam}['operation']" in a.args[1:] and repr(op_c) in a.args[1:]:
                         meths.add(c.func.attr)
                     break
                 cur = par
